@@ -40,9 +40,15 @@ type c03Case struct {
 func init() {
 	engine.Register(&engine.Check{
 		ID: "C03", Level: "fault_enumeration",
-		Rule:   "corpus = universe U in XY/XYZ/XYM/XYZM + collections (mixed layouts, empty members, nesting) + 14 large geometries whose coordinate arrays straddle 512/1024 floats and 4/8/64 KiB x {NDR,XDR} x {WKB default, WKB NaN mode, EWKB} x top-level SRID in {0,1,4326,2^31-1,2^31,2^32-1} + special-float sweep; bytes compared with an independent reference encoder, decode compared with the model (carve-outs computed); hex and SQL wrappers; Read over a fault-injecting reader on enc(g1)||enc(g2): all answer sequences with <=1 (quick) / <=2 (thorough) non-default answers from {all, 1 byte, all-but-one, data+EOF}, and ALL chunk compositions for encodings <= 22 bytes; Write over a fault-injecting writer: every Write call index x {fail, short write}. distinct_nontrivial = distinct (case) tuples with at least one coordinate Also: every NaN pattern of a point (each ordinate from canonical/payload/negative NaN and an ordinary value) stand-alone, as multipoint member and inside nested collections; two-step histories in which the bytes returned by Marshal and by the SQL Value() methods are kept while shorter and longer geometries are encoded, then compared again.",
-		Run:    c03Run,
-		Replay: func(c *engine.Ctx, kind string, raw json.RawMessage) { c03Exec(c, decodeCase[c03Case](raw), nil) },
+		Rule: "corpus = universe U in XY/XYZ/XYM/XYZM + collections (mixed layouts, empty members, nesting) + 14 large geometries whose coordinate arrays straddle 512/1024 floats and 4/8/64 KiB x {NDR,XDR} x {WKB default, WKB NaN mode, EWKB} x top-level SRID in {0,1,4326,2^31-1,2^31,2^32-1} + special-float sweep; bytes compared with an independent reference encoder, decode compared with the model (carve-outs computed); hex and SQL wrappers; Read over a fault-injecting reader on enc(g1)||enc(g2): all answer sequences with <=1 (quick) / <=2 (thorough) non-default answers from {all, 1 byte, all-but-one, data+EOF}, and ALL chunk compositions for encodings <= 22 bytes; Write over a fault-injecting writer: every Write call index x {fail, short write}. distinct_nontrivial = distinct (case) tuples with at least one coordinate Also: every NaN pattern of a point (each ordinate from canonical/payload/negative NaN and an ordinary value) stand-alone, as multipoint member and inside nested collections; every query / in-place change / query history of length <=3 (thorough 4) on live geometries and collections (incl. a point pushed into a nested, possibly still empty, collection after the outer one was encoded): the bytes must be the reference encoding of the geometry as it is now; two-step histories in which the bytes returned by Marshal and by the SQL Value() methods are kept while shorter and longer geometries are encoded, then compared again.",
+		Run:  c03Run,
+		Replay: func(c *engine.Ctx, kind string, raw json.RawMessage) {
+			if kind == "c03-history" {
+				replayLive(c, kind, "history", decodeCase[liveCase](raw), c03LiveQuery)
+				return
+			}
+			c03Exec(c, decodeCase[c03Case](raw), nil)
+		},
 		Assumptions: []string{
 			"Children of collections keep SRID 0 (what the constructors produce); (0,nil) reads are not part of the reader menu",
 			"Reference encoder ref.EncodeWKB written from the ISO WKB / PostGIS EWKB format descriptions",
@@ -508,6 +514,13 @@ func c03SQL(c *engine.Ctx, cs c03Case, fail func(what, desc string)) {
 }
 
 func c03Run(c *engine.Ctx) {
+	// query / in-place change / query histories on live objects
+	hdepth := 3
+	if c.Thorough() {
+		hdepth = 4
+	}
+	c.Note("history_depth", hdepth)
+	exploreLive(c, "c03-history", "history", c03LiveStarts(), hdepth, c03LiveQuery)
 	corpus := codecCorpus(c.Thorough())
 	big := bigCorpus(true)
 	c.Note("big_geometries", len(big))
@@ -682,4 +695,62 @@ func runWriter(c *engine.Ctx, cs c03Case) {
 	t, want := cs.G.MustBuild(), ref.EncodeWKB(cs.G, cs.XDR, cs.Ext)
 	st := engine.Explore(1, 0, c.Expired, func(m *engine.MC) { writerBody(c, cs, t, want, m) })
 	c.Count("writer_executions", st.Executions)
+}
+
+// c03LiveQuery: the encoders asked about a LIVE object after in-place changes (a member edited, a
+// point pushed into a nested collection after the outer collection was built and encoded): the
+// bytes must be the reference encoding of the geometry as it is now. Non-final queries only
+// exercise the encoders (whatever they remember about the object is remembered here).
+func c03LiveQuery(t geom.T, m *ref.G, final bool) string {
+	nan := wkbcommon.WKBOptionEmptyPointHandling(wkbcommon.EmptyPointHandlingNaN)
+	e1, err1 := ewkb.Marshal(t, ewkb.XDR)
+	w1, err2 := wkb.Marshal(t, wkb.NDR, nan)
+	if !final {
+		return ""
+	}
+	if !c03Encodable(m) {
+		return ""
+	}
+	if err1 != nil || err2 != nil {
+		return fmt.Sprintf("encoding the geometry as it is now fails: ewkb %v, wkb %v", err1, err2)
+	}
+	if want := ref.EncodeWKB(m, true, true); !bytes.Equal(e1, want) {
+		return fmt.Sprintf("ewkb.Marshal = %x, reference encoding of the current geometry = %x", e1, want)
+	}
+	if want := ref.EncodeWKB(m, false, false); !bytes.Equal(w1, want) {
+		return fmt.Sprintf("wkb.Marshal = %x, reference encoding of the current geometry = %x", w1, want)
+	}
+	return ""
+}
+
+// c03Encodable: every layout in XY..XYZM; a collection without members and without a fixed
+// layout is encodable only at top level (written with the XY code).
+func c03Encodable(m *ref.G) bool {
+	if m.Kind == ref.LinearRing {
+		return false // the formats have no ring type of their own
+	}
+	if m.Kind != ref.Collection {
+		return m.Layout >= geom.XY && m.Layout <= geom.XYZM
+	}
+	for _, k := range m.Kids {
+		if k.Kind == ref.Collection && k.Layout == geom.NoLayout {
+			return false // nested layout-less empty collection: the formats differ on it (see C03_B notes), not asked here
+		}
+		if !c03Encodable(k) {
+			return false
+		}
+	}
+	return true
+}
+
+// c03LiveStarts: the shared start set plus collections that contain a still empty collection.
+func c03LiveStarts() []*ref.G {
+	out := liveStarts()
+	pt := func(l geom.Layout, k float64) *ref.G { return ref.NewPoint(l, true, ref.CounterFrom(k)) }
+	out = append(out,
+		ref.NewCollection(geom.NoLayout, ref.NewCollection(geom.NoLayout)),
+		ref.NewCollection(geom.NoLayout, ref.NewCollection(geom.NoLayout), pt(geom.XY, 90)),
+		ref.NewCollection(geom.NoLayout, pt(geom.XYM, 95), ref.NewCollection(geom.NoLayout)),
+	)
+	return out
 }
